@@ -1067,7 +1067,10 @@ class Unit:
         xret = next((o.split("=", 1)[1] for o in opts if o.startswith("ret=")), None)
         if lifted:
             name = "op_" + re.sub(r"(?<!^)(?=[A-Z])", "_", variant).lower()
-            sig = "fn %s(%s%s%s, dbs: &Arc<Databases>, client: &Client) -> (r: Response)" % (name, ", ".join(params), ", " if params else "", lifted["cparams"])
+            plist = list(params) + ([lifted["cparams"]] if lifted["cparams"].strip() else [])
+            plist.append("dbs: &mut Databases" if "mutdbs" in opts else "dbs: &Arc<Databases>")
+            plist.append("client: &mut Client" if "mutclient" in opts else "client: &Client")
+            sig = "fn %s(%s) -> (r: Response)" % (name, ", ".join(plist))
         elif xparams is not None:
             # an arm of another dispatcher (e.g. the match of the replication thread): the locals of the enclosing function it uses become the parameters named here
             sig = "fn %s(%s%s%s) -> (r: %s)" % (name, ", ".join(params), ", " if params else "", xparams, xret or "Response")
